@@ -30,7 +30,8 @@ class C05(common.SpecCheck):
             for e in spec["exprs"]:
                 o = dense.output_name(e)
                 if rng.random() < 0.5:
-                    classes.add_spacetime(rng, spec, o, classes.effective_loop_order(spec, o), allow_coord=True)
+                    classes.add_spacetime(rng, spec, o, classes.effective_loop_order(spec, o), allow_coord=True,
+                                          no_coord=classes.flat_no_coord(spec, o))
         meta["class"] = "K"
         return spec, meta
 
